@@ -421,9 +421,24 @@ def parallelize(  # noqa: C901
             tl.join(proc_tl)
         logger.debug(
             f'Beginning of worker process (pid={pid}) log records.')
+        proc = processes[pid-1]
         lqueue_end = False
         while not lqueue_end:
-            record = lqueue_list[pid].get()
+            # A child process flushes its log records, including the final
+            # None object, before it terminates. Hence, if the process has
+            # terminated already and its log records queue is empty
+            # afterwards, it died before it finished its log records.
+            proc_ended = proc.exitcode is not None
+            try:
+                record = lqueue_list[pid].get(timeout=0.01)
+            except queue.Empty:
+                if proc_ended:
+                    stop_processes()
+                    raise RuntimeError(
+                        f'Child process {proc.pid} terminated before it '
+                        'finished its log records! '
+                        f'Exit code was {proc.exitcode}.')
+                continue
             if record is None:
                 lqueue_end = True
             else:
